@@ -1,7 +1,510 @@
-//! C06 driver (stub: not built yet).
-use crate::trace::Args;
+//! C06 driver: primality decisions (`isprime64`, `pseudoprime`).
+//!
+//! The driver records the answers of the library together with a witness of the truth that the
+//! specification (spec/primality/PrimalityTrace.tla) verifies by itself: nothing for p < 2^31 (TLC
+//! decides), a non-trivial divisor found by the driver's own trial division / rho for composites, a
+//! Pocklington chain from the certified pool for primes.  Numbers whose status the driver cannot
+//! certify are not logged.  The library is never asked for a witness.
 
-pub fn run(_args: &Args) -> i32 {
-    eprintln!("driver c06 not built yet");
-    2
+use rand::rngs::StdRng;
+use rand::Rng;
+use serde_json::{json, Value};
+
+use yamaquasi::{isprime64, pseudoprime};
+
+use crate::gen::{gcd, is_prime_u64, powmod, probably_prime, rand_bits, rng_for, Pool, Uint};
+use crate::trace::*;
+
+fn mm(a: u64, b: u64, n: u64) -> u64 {
+    ((a as u128 * b as u128) % n as u128) as u64
+}
+
+/// strong probable prime test to base a (own code)
+fn sprp(n: u64, a: u64) -> bool {
+    if n < 3 || n % 2 == 0 {
+        return n == 2;
+    }
+    let mut d = n - 1;
+    let mut s = 0;
+    while d % 2 == 0 {
+        d /= 2;
+        s += 1;
+    }
+    let (mut x, mut b, mut e) = (1u64, a % n, d);
+    if b == 0 {
+        return true;
+    }
+    while e > 0 {
+        if e & 1 == 1 {
+            x = mm(x, b, n);
+        }
+        b = mm(b, b, n);
+        e >>= 1;
+    }
+    if x == 1 || x == n - 1 {
+        return true;
+    }
+    for _ in 1..s {
+        x = mm(x, x, n);
+        if x == n - 1 {
+            return true;
+        }
+    }
+    false
+}
+
+fn gcd64(mut a: u64, mut b: u64) -> u64 {
+    while b != 0 {
+        let r = a % b;
+        a = b;
+        b = r;
+    }
+    a
+}
+
+/// a non-trivial divisor of a composite n (own trial division, then Pollard rho)
+fn divisor(n: u64) -> Option<u64> {
+    if n < 4 {
+        return None;
+    }
+    let mut d = 2u64;
+    while d < 50_000 && d * d <= n {
+        if n % d == 0 {
+            return Some(d);
+        }
+        d += 1;
+    }
+    if d * d > n || is_prime_u64(n) {
+        return None;
+    }
+    for c in 1u64..200 {
+        let f = |x: u64| (mm(x, x, n) + c) % n;
+        let (mut x, mut y, mut g) = (2u64, 2u64, 1u64);
+        let mut steps = 0u64;
+        while g == 1 && steps < 50_000_000 {
+            x = f(x);
+            y = f(f(y));
+            g = gcd64(x.abs_diff(y), n);
+            steps += 1;
+        }
+        if g != 1 && g != n {
+            return Some(g);
+        }
+    }
+    None
+}
+
+struct Ctx {
+    out: Out,
+    timeouts: u32,
+}
+
+impl Ctx {
+    /// one p < 2^64: both functions, with the witness the spec needs
+    fn ev64(&mut self, p: u64, fam: &str, chain: Option<Value>) {
+        let wit = if p < (1 << 31) - 1 {
+            json!({"kind": "small", "ps": p})
+        } else if let Some(c) = chain {
+            json!({"kind": "chain", "chain": c})
+        } else if let Some(d) = divisor(p) {
+            json!({"kind": "div", "d": du(d)})
+        } else {
+            return; // a prime without certificate (or nothing found): not logged
+        };
+        if self.timeouts >= 2 && p % 2 == 0 {
+            return; // the hang on even inputs has been recorded twice already; do not burn more threads
+        }
+        let base = json!({"op": "isprime64", "case": format!("p64/{}/{}", fam, p), "fam": fam, "p": du(p), "pd": p.to_string(), "wit": wit});
+        match guard_deadline(20.0, move || (isprime64(p), pseudoprime(Uint::from(p)))) {
+            Ok((a, b)) => self.out.ev2(base, json!({"r64": a, "rmp": b})),
+            Err(e) => {
+                if e["outcome"] == "timeout" {
+                    self.timeouts += 1;
+                }
+                self.out.ev2(base, e)
+            }
+        }
+    }
+
+    /// one p >= 2^64
+    fn evbig(&mut self, p: Uint, fam: &str, wit: Value, fs: Option<Vec<Uint>>) {
+        assert!(p.bits() > 64);
+        let mut base = json!({"op": "pseudoprime", "case": format!("big/{}/{}", fam, p), "fam": fam, "p": dn(&p), "pd": p.to_string(),
+                              "bits": p.bits(), "wit": wit});
+        if let Some(fs) = fs {
+            base["fs"] = Value::from(fs.iter().map(dn).collect::<Vec<_>>());
+        }
+        match guard_deadline(120.0, move || pseudoprime(p)) {
+            Ok(r) => self.out.ev2(base, json!({"r": r})),
+            Err(e) => self.out.ev2(base, e),
+        }
+    }
+
+    fn block(&mut self, lo: u64, n: u64) {
+        if self.timeouts >= 1 {
+            return;
+        }
+        assert!(lo + n < (1 << 31));
+        let base = json!({"op": "isprime_block", "case": format!("blk/{}", lo), "lo": lo, "n": n});
+        let r = guard_deadline(30.0, move || {
+            let r64: Vec<u64> = (0..n).filter(|&k| isprime64(lo + k)).collect();
+            let rmp: Vec<u64> = (0..n).filter(|&k| pseudoprime(Uint::from(lo + k))).collect();
+            (r64, rmp)
+        });
+        match r {
+            Ok((a, b)) => self.out.ev2(base, json!({"r64": a, "rmp": b})),
+            Err(e) => {
+                if e["outcome"] == "timeout" {
+                    self.timeouts += 1;
+                }
+                self.out.ev2(base, e)
+            }
+        }
+    }
+}
+
+fn div_wit(d: &Uint) -> Value {
+    json!({"kind": "div", "d": dn(d)})
+}
+
+/// certified prime p = m * q * 2^64 + 1 (low word 1: the 2-adic valuation of p - 1 is >= 64)
+fn low_word_one_prime(pool: &mut Pool, rng: &mut StdRng, qbits: u32) -> Option<(Uint, Value)> {
+    let q = pool.prime(qbits);
+    let mut chain = pool.chain_of(&q)?.as_array()?.clone();
+    for m in 1u64..200_000 {
+        let p = ((Uint::from(m) * q) << 64) + Uint::ONE;
+        if !(q * q > p) {
+            break;
+        }
+        if !probably_prime(rng, &p) {
+            continue;
+        }
+        let pm1 = p - Uint::ONE;
+        let e = pm1 / q;
+        for a in 2u64..200 {
+            let au = Uint::from(a);
+            if !powmod(&au, &pm1, &p).is_one() {
+                break;
+            }
+            let t = powmod(&au, &e, &p);
+            if gcd(&((t + p - Uint::ONE) % p), &p).is_one() {
+                chain.push(json!({"p": dn(&p), "q": dn(&q), "a": a}));
+                return Some((p, Value::from(chain)));
+            }
+        }
+    }
+    None
+}
+
+pub fn run(args: &Args) -> i32 {
+    let tier = arg_str(args, "tier", "quick").to_string();
+    let thorough = tier == "thorough";
+    let seed = arg_u64(args, "seed", 1);
+    let mut rng = rng_for(seed, "c06");
+    let mut pool = Pool::new(seed);
+    let mut c = Ctx { out: Out::create(arg_str(args, "out", "trace.ndjson")), timeouts: 0 };
+
+    // ---- A. exhaustive blocks of small integers
+    if thorough {
+        for b in 0..(1u64 << 22) / 1024 {
+            c.block(b * 1024, 1024);
+        }
+    } else {
+        for b in 0..(1u64 << 16) / 256 {
+            c.block(b * 256, 256);
+        }
+        for b in 0..16 {
+            c.block((1 << 20) - 2048 + b * 256, 256);
+        }
+    }
+    c.block(1373653 - 128, 256);
+    c.block(25326001 - 128, 256);
+    c.block((1 << 31) - 258, 256);
+    for _ in 0..(if thorough { 64 } else { 8 }) {
+        let lo = rng.gen_range(1u64 << 16..(1 << 31) - 600);
+        c.block(lo, 256);
+    }
+
+    // ---- B. every strong pseudoprime to bases 2 and 3 below a bound (own scan), decided by TLC itself
+    let lim: u64 = if thorough { 1 << 27 } else { 1 << 24 };
+    let mut n = 9u64;
+    while n < lim {
+        if sprp(n, 2) && sprp(n, 3) && !is_prime_u64(n) {
+            c.ev64(n, "spsp23", None);
+        }
+        n += 2;
+    }
+
+    // ---- C. published least strong pseudoprimes psi_k and further strong pseudoprimes to many bases
+    for &v in &[2047u64, 1373653, 25326001, 3215031751, 2152302898747, 3474749660383, 341550071728321, 3825123056546413051] {
+        c.ev64(v, "psi", None);
+    }
+    // strong pseudoprimes to several prime bases found in the literature; each is checked here to be composite
+    // (own test) and carries a divisor, so a misremembered value costs nothing
+    for &v in &[
+        3215031751u64, 118670087467, 307768373641, 315962312077, 354864744877, 457453568161, 528929554561, 546348519181,
+        602248359169, 1362242655901, 1871186716981, 2152302898747, 2273312197621, 2366338900801, 3343433905957,
+        3461715915661, 3474749660383, 3477707481751, 4341937413061, 4777422165601, 5537838510751, 7999252175582851,
+        585226005592931977, 84983557412237221, 230245660726188031, 1134931906634489281, 1144336081150073701,
+        1167748053436849501, 1646697619851137101, 4265186605968234451, 5474093792130026911, 7033671664103127781,
+        7361235187296010651, 8276442534101054431, 18446744073709551615, 18446744073709551557, 18446744073709551533,
+    ] {
+        if !is_prime_u64(v) {
+            c.ev64(v, "spsp", None);
+        }
+    }
+    // beyond 64 bits: psi_12 and psi_13, both of the form p(2p-1)
+    for &pp in &[399165290221u64, 1287836182261] {
+        let p = Uint::from(pp);
+        let q = p * Uint::from(2u64) - Uint::ONE;
+        c.evbig(p * q, "psi", div_wit(&p), Some(vec![p, q]));
+    }
+
+    // ---- D. structured composites p(2p-1), p(3p-2) around the thresholds and up to 2^64, and beyond
+    for (mult, fam) in [(2u64, "p2p1"), (3u64, "p3p2")] {
+        // p * (mult*p - (mult-1)) ~ target  =>  p ~ sqrt(target / mult)
+        let mut starts: Vec<u64> = vec![];
+        for t in [20u32, 31, 32, 40, 48, 63, 64] {
+            let p0 = ((2f64.powi(t as i32) / mult as f64).sqrt()) as u64;
+            starts.push(p0);
+        }
+        for &p0 in &starts {
+            // nearest 4 on each side with both factors prime
+            for dir in [-1i64, 1] {
+                let mut p = p0 as i64;
+                let mut found = 0;
+                let mut steps = 0;
+                while found < 4 && steps < 200_000 && p > 3 {
+                    p += dir;
+                    steps += 1;
+                    let pu = p as u64;
+                    let q = mult as u128 * pu as u128 - (mult as u128 - 1);
+                    if q >> 64 != 0 || !is_prime_u64(pu) || !is_prime_u64(q as u64) {
+                        continue;
+                    }
+                    let nn = pu as u128 * q;
+                    found += 1;
+                    if nn >> 64 == 0 {
+                        c.ev64(nn as u64, fam, None);
+                    } else {
+                        let (a, b) = (Uint::from(pu), Uint::from(q as u64));
+                        c.evbig(a * b, fam, div_wit(&a), Some(vec![a, b]));
+                    }
+                }
+            }
+        }
+        // seeded ones of all sizes, below and above 64 bits
+        for bits in [12u32, 17, 22, 26, 30, 33, 36, 40, 50, 64, 80, 100, 128, 200, 249] {
+            let mut found = 0;
+            let mut tries = 0;
+            while found < (if thorough { 4 } else { 1 }) && tries < 400_000 {
+                tries += 1;
+                let p = rand_bits(&mut rng, bits) | Uint::ONE;
+                let q = p * Uint::from(mult) - Uint::from(mult - 1);
+                if !probably_prime(&mut rng, &p) || !probably_prime(&mut rng, &q) {
+                    continue;
+                }
+                found += 1;
+                let nn = p * q;
+                if nn.bits() <= 64 {
+                    c.ev64(nn.digits()[0], fam, None);
+                } else {
+                    c.evbig(nn, fam, div_wit(&p), Some(vec![p, q]));
+                }
+            }
+        }
+    }
+    // Chernick numbers (6k+1)(12k+1)(18k+1) with three prime factors: all below 2^64 nearest to the thresholds,
+    // a seeded sample, and larger ones
+    let mut chern: Vec<(u64, u64)> = vec![]; // (k, n)
+    for k in 1u64..240_000 {
+        let (a, b, cc) = (6 * k + 1, 12 * k + 1, 18 * k + 1);
+        if is_prime_u64(a) && is_prime_u64(b) && is_prime_u64(cc) {
+            let nn = a as u128 * b as u128 * cc as u128;
+            if nn >> 64 == 0 {
+                chern.push((k, nn as u64));
+            }
+        }
+    }
+    let mut picked: Vec<u64> = vec![];
+    for t in [20u32, 40, 64] {
+        let target = if t == 64 { u64::MAX } else { 1u64 << t };
+        let pos = chern.partition_point(|&(_, n)| n < target);
+        for i in pos.saturating_sub(3)..(pos + 3).min(chern.len()) {
+            picked.push(chern[i].1);
+        }
+    }
+    for i in 0..chern.len().min(4) {
+        picked.push(chern[i].1);
+    }
+    for _ in 0..(if thorough { 200 } else { 30 }) {
+        picked.push(chern[rng.gen_range(0..chern.len())].1);
+    }
+    picked.sort();
+    picked.dedup();
+    for n in picked {
+        c.ev64(n, "chernick", None);
+    }
+    for bits in [22u32, 30, 41, 63, 80] {
+        let mut found = 0;
+        let mut tries = 0;
+        while found < (if thorough { 3 } else { 1 }) && tries < 3_000_000 {
+            tries += 1;
+            let k = rand_bits(&mut rng, bits);
+            let a = k * Uint::from(6u64) + Uint::ONE;
+            let b = k * Uint::from(12u64) + Uint::ONE;
+            let cc = k * Uint::from(18u64) + Uint::ONE;
+            if (a % Uint::from(5u64)).is_zero() || (b % Uint::from(5u64)).is_zero() || (cc % Uint::from(5u64)).is_zero() {
+                continue;
+            }
+            if !probably_prime(&mut rng, &a) || !probably_prime(&mut rng, &b) || !probably_prime(&mut rng, &cc) {
+                continue;
+            }
+            found += 1;
+            c.evbig(a * b * cc, "chernick", div_wit(&a), Some(vec![a, b, cc]));
+            // the same number seen as a Carmichael number (Korselt's criterion checked by the spec)
+            c.evbig(a * b * cc, "carmichael", div_wit(&b), Some(vec![a, b, cc]));
+        }
+    }
+    // every Carmichael number in a window around 2^20 (own factorisation + Korselt), decided by TLC itself
+    let mut n = (1u64 << 20) - 300_000 + 1;
+    while n < (1 << 20) + 300_000 {
+        if !is_prime_u64(n) {
+            let mut m = n;
+            let mut ok = true;
+            let mut nf = 0;
+            let mut d = 3;
+            while d * d <= m && ok {
+                if m % d == 0 {
+                    m /= d;
+                    nf += 1;
+                    if m % d == 0 || (n - 1) % (d - 1) != 0 {
+                        ok = false;
+                    }
+                }
+                d += 2;
+            }
+            if ok && m > 1 {
+                nf += 1;
+                ok = (n - 1) % (m - 1) == 0;
+            }
+            if ok && nf >= 3 {
+                c.ev64(n, "carmichael", None);
+            }
+        }
+        n += 2;
+    }
+    // known Carmichael numbers around 2^40 and up to 2^64 are covered by the Chernick family above
+
+    // ---- E. even numbers and numbers with a small factor at the word boundaries
+    for k in [8u32, 16, 20, 31, 32, 40, 48, 63] {
+        for d in [-2i64, 0, 2] {
+            c.ev64(((1u64 << k) as i64 + d) as u64, "even", None);
+        }
+        for d in [-1i64, 1, 3] {
+            let v = ((1u64 << k) as i64 + d) as u64;
+            if !is_prime_u64(v) {
+                c.ev64(v, "boundary", None);
+            }
+        }
+    }
+    for v in [198u64, 200, 202, 1 << 33, u64::MAX - 1, u64::MAX - 3, u64::MAX, u64::MAX - 2, u64::MAX - 4, 6, 1 << 62] {
+        if !is_prime_u64(v) {
+            c.ev64(v, if v % 2 == 0 { "even" } else { "boundary" }, None);
+        }
+    }
+    let two = Uint::from(2u64);
+    for k in [64u32, 65, 127, 128, 129, 191, 192, 256, 320, 448, 499] {
+        for d in [0u64, 2, 4] {
+            let v = (Uint::ONE << k) + Uint::from(d);
+            c.evbig(v, "even", div_wit(&two), None);
+        }
+        if k > 64 {
+            let v = (Uint::ONE << k) - two;
+            c.evbig(v, "even", div_wit(&two), None);
+        }
+        // odd neighbours with a small factor (own trial division)
+        for d in [1u64, 3, 5, 7, 9] {
+            let v = (Uint::ONE << k) + Uint::from(d);
+            for f in [3u64, 5, 7, 11, 13, 17, 19, 23, 29, 31, 37, 41, 43] {
+                if (v % Uint::from(f)).is_zero() {
+                    c.evbig(v, "smallfactor", div_wit(&Uint::from(f)), None);
+                    break;
+                }
+            }
+        }
+    }
+
+    // ---- F. certified primes, 33..64 bits (exactness) and above (never rejected), and products of two of them
+    let reps = if thorough { 4 } else { 1 };
+    let mut primes64: Vec<u64> = vec![];
+    for bits in 32..=64u32 {
+        for _ in 0..reps {
+            let p = pool.prime(bits);
+            let ch = pool.chain_of(&p);
+            primes64.push(p.digits()[0]);
+            c.ev64(p.digits()[0], "prime", ch);
+        }
+    }
+    // close to the thresholds and to 2^64
+    let near = |bits: u32, hi: bool| -> Box<dyn Fn(&Uint) -> bool> {
+        // top 9 bits after the leading one all ones (just below 2^bits) or all zeros (just above 2^(bits-1))
+        Box::new(move |p: &Uint| {
+            let t = (*p >> (bits - 10)).digits()[0] & 0x1ff;
+            if hi {
+                t == 0x1ff
+            } else {
+                t == 0
+            }
+        })
+    };
+    for (bits, hi) in [(40u32, true), (41, false), (64, true), (64, true), (64, true), (63, true), (65, false), (65, false)] {
+        let f = near(bits, hi);
+        let p = pool.prime_with(bits, &*f);
+        let ch = pool.chain_of(&p);
+        if bits <= 64 {
+            c.ev64(p.digits()[0], "prime_edge", ch);
+        } else {
+            c.evbig(p, "prime_edge", json!({"kind": "chain", "chain": ch}), None);
+        }
+    }
+    let mut bigbits: Vec<u32> = vec![65, 66, 72, 80, 96, 112, 127, 128, 129, 160, 192, 224, 256];
+    if thorough {
+        bigbits.extend_from_slice(&[65, 97, 128, 130, 193, 255, 257, 320, 384, 448, 500]);
+    }
+    let mut bigprimes: Vec<Uint> = vec![];
+    for &bits in &bigbits {
+        let p = pool.prime(bits);
+        let ch = pool.chain_of(&p);
+        bigprimes.push(p);
+        c.evbig(p, "prime", json!({"kind": "chain", "chain": ch}), None);
+    }
+    // primes with low word 1 (valuation of p - 1 at least 64: the shift by s = 64 in pseudoprime)
+    for qbits in [70u32, 80, 100] {
+        if let Some((p, ch)) = low_word_one_prime(&mut pool, &mut rng, qbits) {
+            c.evbig(p, "prime_lowword1", json!({"kind": "chain", "chain": ch}), None);
+        }
+    }
+    // products of two primes
+    for i in 0..primes64.len() / 2 {
+        let (a, b) = (primes64[i], primes64[primes64.len() - 1 - i]);
+        let nn = a as u128 * b as u128;
+        if nn >> 64 == 0 {
+            c.ev64(nn as u64, "semiprime", None);
+        } else {
+            c.evbig(Uint::from(a) * Uint::from(b), "semiprime", div_wit(&Uint::from(a)), None);
+        }
+    }
+    for i in 0..6 {
+        let (a, b) = (pool.prime(20 + 2 * i), pool.prime(30 + i));
+        c.ev64(a.digits()[0] * b.digits()[0], "semiprime", None);
+    }
+    for i in 0..bigprimes.len().min(8) {
+        let (a, b) = (bigprimes[i], bigprimes[(i + 3) % bigprimes.len()]);
+        if (a * b).bits() <= 500 {
+            c.evbig(a * b, "semiprime", div_wit(&a), None);
+        }
+    }
+    c.out.finish();
+    0
 }
